@@ -17,7 +17,8 @@ import "gonum.org/v1/gonum/blas/blas64"
 //
 //	X[i,0:n] is moved to X[k[i],0:n] for i=0,1,...,m-1.
 //
-// k must have length m, otherwise Dlapmr will panic.
+// k must have length m and be a permutation of 0, 1, ..., m-1, otherwise Dlapmr
+// will panic.
 func (impl Implementation) Dlapmr(forward bool, m, n int, x []float64, ldx int, k []int) {
 	switch {
 	case m < 0:
@@ -38,6 +39,8 @@ func (impl Implementation) Dlapmr(forward bool, m, n int, x []float64, ldx int, 
 		panic(shortX)
 	case len(k) != m:
 		panic(badLenK)
+	case !isPermutation(k):
+		panic(badK)
 	}
 
 	// Quick return if possible.
